@@ -95,7 +95,7 @@ func NewWriter(path string) *Writer {
 	f, err := os.Create(path)
 	if err != nil {
 		fmt.Fprintln(os.Stderr, "cannot create", path, err)
-		os.Exit(2)
+		os.Exit(3)
 	}
 	return &Writer{f: f, w: bufio.NewWriterSize(f, 1<<20)}
 }
@@ -104,7 +104,7 @@ func (w *Writer) Put(c Case) {
 	b, err := json.Marshal(c)
 	if err != nil {
 		fmt.Fprintln(os.Stderr, "marshal:", err)
-		os.Exit(2)
+		os.Exit(3)
 	}
 	w.w.Write(b)
 	w.w.WriteByte('\n')
@@ -202,7 +202,7 @@ func ReadReplay(path string) []Case {
 	b, err := os.ReadFile(path)
 	if err != nil {
 		fmt.Fprintln(os.Stderr, err)
-		os.Exit(2)
+		os.Exit(3)
 	}
 	var wrap struct {
 		Case           *Case `json:"case"`
@@ -227,7 +227,7 @@ func ReadReplay(path string) []Case {
 		var c Case
 		if err := json.Unmarshal(line, &c); err != nil {
 			fmt.Fprintln(os.Stderr, "bad corpus line:", err)
-			os.Exit(2)
+			os.Exit(3)
 		}
 		out = append(out, c)
 	}
